@@ -12,7 +12,7 @@ func init() {
 	register(&Spec{
 		ID:          "C19",
 		Loads:       []LoadSpec{{Patterns: []string{"./routing", "./routing/route", "./graph/db/models", "./graph/db", "./lnrpc/routerrpc"}}},
-		Explanation: "Decides the shape of the checks a returned route depends on: an edge is selected only if the amount it must carry (net amount plus the capped inbound fee) is within capacity / max / min HTLC and, for local channels, within the available bandwidth, and (network) the policy is enabled; the search adopts a predecessor only below the fee-limit, zero-probability, CLTV-limit, minimum-probability and onion-size checks, all evaluated on the amount computed after the non-negative node fee clamp; the clamp has one form in edge selection and in the search; newRoute recomputes per-hop amounts and time locks with the same fee functions and deltas and hands their totals to the route; the route's fee accessors are differences of per-hop amounts; the CLTV budget handed to the search (RestrictParams.CltvLimit) is the caller's limit minus the final delta the route construction adds on top of the hops, at every place that fills it (RequestRoute, the callers of NewRouteRequest), and a delta enters that reserve only after it was compared with the limit; the inbound fee of a directed channel (graph cache, kv and sql store) is a function of the node's current outgoing policy alone.",
+		Explanation: "Decides the shape of the checks a returned route depends on: an edge is selected only if the amount it must carry (net amount plus the capped inbound fee) is within capacity / max / min HTLC and, for local channels, within the available bandwidth, and (network) the policy is enabled; the search adopts a predecessor only below the fee-limit, zero-probability, CLTV-limit, minimum-probability and onion-size checks, all evaluated on the amount computed after the non-negative node fee clamp; the clamp has one form in edge selection and in the search; newRoute recomputes per-hop amounts and time locks with the same fee functions and deltas and hands their totals to the route; the route's fee accessors are differences of per-hop amounts; the CLTV budget handed to the search (RestrictParams.CltvLimit) is the caller's limit minus the final delta the route construction adds on top of the hops, at every place that fills it (RequestRoute, the callers of NewRouteRequest), and a delta enters that reserve only after it was compared with the limit; the inbound fee of a directed channel (graph cache, kv and sql store) is a function of the node's current outgoing policy alone; the outgoing-channel restriction filters the channels of the source of the search (set by findPath on every unifier before it is used), local-channel rules stay with self; BuildRoute hands out a route built without a fixed amount only after every edge was range-checked for the amount the built route sends over it; the outbound fee of both policy types is the shared 128-bit, saturating computeFee; ValidateCLTVLimit and RequestRoute add the block padding to a final delta without wrapping 16 bits; the unified edge returned for a node pair takes its policy, inbound fee and blinded payment from the one adopted candidate; senderAmtBackwardPass selects each edge for the very amount and next-hop fee its inbound fee is then computed from.",
 		NotDecided: []string{
 			"that a returned route satisfies every hop's policy on arbitrary graphs (backward accumulation with integer rounding)", "probability estimation and mission control", "bandwidth races between route computation and HTLC dispatch",
 			"ignored-node/edge and outgoing-channel restrictions inside the graph session (only the last-hop and self-cycle guards of the search loop are decided)",
@@ -747,8 +747,8 @@ func runC19(r *an.Run) {
 		})
 
 	r.Obl("outgoing-channel-restriction", "GUARD",
-		"nodeEdgeUnifier.addPolicy adds an edge of the source node only if no outgoing-channel restriction is set or the channel is in the restriction map; whether an edge is local is decided by fromNode == sourceNode; findPath builds the map from every entry of r.OutgoingChannelIDs and hands it to every unifier it creates; graph channels without an incoming policy are not added",
-		"an edge outside the restriction lets the first hop leave through a channel the caller excluded", 5,
+		"nodeEdgeUnifier.addPolicy adds an edge that leaves the node the restriction applies to (fromNode == the unifier's outChanRestrNode, the first node of the route) only if no outgoing-channel restriction is set or the channel is in the restriction map, the membership being the comma-ok result of looking this edge's channel id up in that map; whether an edge is local (bandwidth hints, local channel rules) is decided by fromNode == sourceNode and by nothing else; findPath builds the map from every entry of r.OutgoingChannelIDs and hands it, together with self as the node local channels belong to, to every unifier it creates; graph channels without an incoming policy are not added",
+		"an edge outside the restriction lets the first hop leave through a channel the caller excluded", 6,
 		func(o *an.Obl) {
 			f := p.Func(rt + "nodeEdgeUnifier.addPolicy")
 			var adds []an.Site
@@ -759,10 +759,32 @@ func runC19(r *an.Run) {
 				}
 			}
 			if needExactly(o, f, "append to unifier.edges", adds, 1) {
-				guarded(o, f, adds[0], an.AnyOf("not a local channel, no restriction, or channel in the restriction map",
-					an.Truth(an.LocalNamed("localChan"), false, ""),
+				// the membership flag is the comma-ok result of the lookup in the
+				// restriction map (addPolicy has a second `ok`, of the unifier map)
+				inRestr := func(fn *an.Func, e ast.Expr) bool {
+					id, isID := e.(*ast.Ident)
+					if !isID {
+						return false
+					}
+					obj := c19VarObj(fn, id)
+					found := false
+					ast.Inspect(fn.Body, func(n ast.Node) bool {
+						as, isAs := n.(*ast.AssignStmt)
+						if !isAs || len(as.Lhs) != 2 || len(as.Rhs) != 1 {
+							return true
+						}
+						ix, isIx := ast.Unparen(as.Rhs[0]).(*ast.IndexExpr)
+						if isIx && c19VarObj(fn, as.Lhs[1]) == obj && obj != nil && an.Match(fn, an.FieldPath(an.Recv(), "outChanRestr"), ix.X) {
+							found = true
+						}
+						return true
+					})
+					return found
+				}
+				guarded(o, f, adds[0], an.AnyOf("not a channel of the node the restriction applies to, no restriction, or channel in the restriction map",
+					an.Cmp(an.Param(0), an.NE, an.FieldPath(an.Recv(), "outChanRestrNode"), ""),
 					an.IsNil(an.FieldPath(an.Recv(), "outChanRestr"), true, ""),
-					an.Truth(an.LocalNamed("ok"), true, "")))
+					an.Truth(inRestr, true, "")))
 				guarded(o, f, adds[0], an.IsNil(an.Param(4), false, "hopPayloadSizeFn != nil"))
 			}
 			for _, s := range f.Assigns(an.LocalNamed("localChan"), false) {
